@@ -75,6 +75,11 @@ claimed = {
    technique='stateless model checking of the real derived reactive values under a controlled scheduler (preemption- or delay-bounded DFS with state cache), convergence oracle evaluated at quiescence',
    text='13 scenarios: DerivedVariable2/3 with writers on every input, InheritFrom, DerivedSet over two sources with Add/Delete/Replace and with a source being unsubscribed, SubtractReactive, Counter over two inputs (condition false and true for the zero value, Monitor racing with writes), SortedSet (adds vs weight changes; Delete vs weight change), WaitGroup (Add/Done/re-Add; never-empty), EvictionState (EvictionEvent/OnTrigger vs Evict). Every interleaving with <= 2 (thorough 3) deviations is executed; when nothing is enabled any more the derived value must equal its defining function of the current inputs (sorted order, heaviest/lightest, trigger iff last pending element done, exactly the events of slots <= last evicted fired); deadlock is a violation.',
    note='Trusted: shim fidelity; convergence judged at quiescence only. One genuine defect recorded in known_findings.json (SortedSet Delete vs weight change lock inversion).', ref='2 C14'),
+
+ 'C15': dict(cat='model_checking', engine='S+H',
+   technique='stateless model checking of the real event/promise/notifier code under a controlled scheduler (preemption-bounded DFS, all interleavings with state cache for the 2-thread scenarios); exhaustive sequential histories for the value notifier',
+   text='S: 16 scenarios - Trigger x2 racing Hook/Unhook (call counts judged against recorded call/return intervals, attachment order), WithMaxTriggerCount(1|2) on the event and on a hook under 3 concurrent triggers, a hook that unhooks itself, LinkTo re-linking racing triggers of old and new target, two concurrent LinkTo calls, a pooled hook on a 1-worker pool (checked after the pool drained), promise Event/Event1 Trigger vs OnTrigger vs unsubscribe, value notifier Wait vs Notify vs Deregister and two listener generations. H: every sequential history up to depth 6 (thorough 7) of Listener/Notify/Wait(cancelled|live ctx)/Deregister over 2 values and 3 listeners: Wait succeeds only if Notify(value) was called between creation and deregistration.',
+   note='Trusted: shim fidelity incl. select; Event2..9 are generated from the template of Event1 and not exercised separately. Two genuine defects repaired (fix: commits in runtime/valuenotifier).', ref='2 C15'),
 }
 na_reason = 'check not built yet in this round (engine exists; see DESIGN.md section 9 for the order of work)'
 checks = []
